@@ -19,22 +19,25 @@ VARIABLES out,    \* [Ctrl -> "idle" | "big" | "small"]  the request of c that i
           sent,   \* [Ctrl -> Nat]     chunks written so far
           tags,   \* [Ctrl -> Seq(Ctrl)]  for every chunk written: whose content it carried
           cut,    \* [Ctrl -> BOOLEAN]   an EVENT message was written between two chunks of the response in flight
+          bigq,   \* Seq(Ctrl)  the controllers whose GET /accessories is not answered completely yet, in the order of arrival
           last
-vars == <<out, buf, owner, sent, tags, cut, last>>
+vars == <<out, buf, owner, sent, tags, cut, bigq, last>>
 Guard(g) == g \notin Weak
 Buffers == Ctrl \cup {"pool"}
-\* kinds: "big" = GET /accessories (the handler holds the server mutex while it writes: a second one waits for the first,
-\* so at most one is in flight), "small" = GET /characteristics for a long list of ids (no mutex).  Neither fits into the
+\* kinds: "big" = GET /accessories, "small" = GET /characteristics for a long list of ids.  The attribute database is encoded
+\* under the server's lock and written after the lock was released (guard accessories_written_outside_the_lock): a controller
+\* that reads slowly does not keep the others waiting.  Without the guard the handler holds the lock while it writes: a second
+\* GET /accessories is not answered before the first one was read to the end.  Neither fits into the
 \* socket: only Window chunks can be written before the controller reads.
 Chunks(k) == 3
 Window == 1
 
 Init == /\ out = [c \in Ctrl |-> "idle"] /\ buf = [c \in Ctrl |-> c] /\ owner = [b \in Buffers |-> "none"]
-        /\ sent = [c \in Ctrl |-> 0] /\ tags = [c \in Ctrl |-> <<>>] /\ cut = [c \in Ctrl |-> FALSE] /\ last = [a |-> "none", c |-> "none", k |-> "none", ok |-> TRUE]
+        /\ sent = [c \in Ctrl |-> 0] /\ tags = [c \in Ctrl |-> <<>>] /\ cut = [c \in Ctrl |-> FALSE] /\ bigq = <<>> /\ last = [a |-> "none", c |-> "none", k |-> "none", ok |-> TRUE]
 
 \* the controller sends a request; the handler encodes the response into a buffer
 Send(c, k) == /\ out[c] = "idle" /\ out' = [out EXCEPT ![c] = k]
-              /\ k = "big" => \A x \in Ctrl : out[x] # "big"
+              /\ bigq' = IF k = "big" THEN Append(bigq, c) ELSE bigq
               /\ LET b == IF Guard("buffer_owned_until_written") THEN c ELSE "pool" IN
                  /\ buf' = [buf EXCEPT ![c] = b] /\ owner' = [owner EXCEPT ![b] = c]
               /\ sent' = [sent EXCEPT ![c] = 0] /\ tags' = [tags EXCEPT ![c] = <<>>] /\ UNCHANGED cut
@@ -42,26 +45,29 @@ Send(c, k) == /\ out[c] = "idle" /\ out' = [out EXCEPT ![c] = k]
 \* the server writes the next chunk as long as the socket takes it (internal step)
 Write(c) == /\ out[c] # "idle" /\ sent[c] < Chunks(out[c]) /\ sent[c] < Window
             /\ sent' = [sent EXCEPT ![c] = @ + 1] /\ tags' = [tags EXCEPT ![c] = Append(@, owner[buf[c]])]
-            /\ last' = [a |-> "Write", c |-> c, k |-> out[c], ok |-> TRUE] /\ UNCHANGED <<out, buf, owner, cut>>
+            /\ last' = [a |-> "Write", c |-> c, k |-> out[c], ok |-> TRUE] /\ UNCHANGED <<out, buf, owner, cut, bigq>>
 \* the controller reads its response to the end: the remaining chunks are written and delivered
 Receive(c) == /\ out[c] # "idle" /\ sent[c] >= (IF Chunks(out[c]) < Window THEN Chunks(out[c]) ELSE Window)
               /\ LET rest == [i \in 1..(Chunks(out[c]) - sent[c]) |-> owner[buf[c]]]
-                     all == tags[c] \o rest IN
-                 last' = [a |-> "Receive", c |-> c, k |-> out[c], ok |-> (~cut[c] /\ \A i \in 1..Len(all) : all[i] = c)]
+                     all == tags[c] \o rest
+                     \* a response that has to wait for another controller to read ITS response never completes in time
+                     served == out[c] # "big" \/ Guard("accessories_written_outside_the_lock") \/ Head(bigq) = c IN
+                 last' = [a |-> "Receive", c |-> c, k |-> out[c], ok |-> (served /\ ~cut[c] /\ \A i \in 1..Len(all) : all[i] = c)]
               /\ out' = [out EXCEPT ![c] = "idle"] /\ sent' = [sent EXCEPT ![c] = 0] /\ tags' = [tags EXCEPT ![c] = <<>>]
               /\ cut' = [cut EXCEPT ![c] = FALSE]
+              /\ bigq' = SelectSeq(bigq, LAMBDA x : x # c)
               /\ UNCHANGED <<buf, owner>>
 \* The application changes a value every controller is subscribed to.  A controller whose response is in flight gets its
 \* EVENT message after the response (guard notifications_wait_for_response); without the guard the message is written
 \* between two chunks of the response, which the controller then cannot parse.
 Event == /\ cut' = [c \in Ctrl |-> cut[c] \/ (out[c] # "idle" /\ sent[c] < Chunks(out[c]) /\ ~Guard("notifications_wait_for_response"))]
          /\ last' = [a |-> "Event", c |-> "app", k |-> "none", ok |-> TRUE]
-         /\ UNCHANGED <<out, buf, owner, sent, tags>>
+         /\ UNCHANGED <<out, buf, owner, sent, tags, bigq>>
 \* The accessory sends its periodic keep-alive (an EVENT message without a body) to every connection (hap/keep_alive.go).
 \* Like a notification it must wait for a response in flight (guard keepalives_wait_for_response).
 KeepAlive == /\ cut' = [c \in Ctrl |-> cut[c] \/ (out[c] # "idle" /\ sent[c] < Chunks(out[c]) /\ ~Guard("keepalives_wait_for_response"))]
              /\ last' = [a |-> "KeepAlive", c |-> "app", k |-> "none", ok |-> TRUE]
-             /\ UNCHANGED <<out, buf, owner, sent, tags>>
+             /\ UNCHANGED <<out, buf, owner, sent, tags, bigq>>
 Next == (\E c \in Ctrl : (\E k \in {"big", "small"} : Send(c, k)) \/ Write(c) \/ Receive(c)) \/ Event \/ KeepAlive
 Spec == Init /\ [][Next]_vars
 
